@@ -210,7 +210,8 @@ end pit
 section glue
 variable {α : Type}
 
-inductive EnsErr | lengthMismatch | noValidData
+/-- `obsNotOneD` is raised in front of `checkEnsemble`, by the layout handling of `Model/C10Entry.lean` -/
+inductive EnsErr | lengthMismatch | noValidData | obsNotOneD
   deriving DecidableEq, Repr
 
 /-- forecasts kept: the observation is present (`pd.notnull`) and at least one member is -/
